@@ -30,8 +30,12 @@ func runC19(c *Ctx) {
 	// "or not at all": the upgrade's one database transaction rolls back on error and on panic and reports Commit's
 	// result (C11-R1 on the adapter's Update, taken over), and a failed version write is reported by every Manager's
 	// SetVersion (the storage error discipline of C10-R1 at those functions)
-	c.Borrow(runC11, "C11-R1", "C19-R3", func(k string) bool { return strings.HasPrefix(k, "Update-") || strings.HasPrefix(k, "helper-forwards:walletdb.Update") })
-	c.Borrow(runC10, "C10-R1", "C19-R2", func(k string) bool { return strings.Contains(k, "SetVersion") || strings.Contains(k, "putManagerVersion") || strings.Contains(k, "putVersion") })
+	c.Borrow(runC11, "C11-R1", "C19-R3", func(k string) bool {
+		return strings.HasPrefix(k, "Update-") || strings.HasPrefix(k, "helper-forwards:walletdb.Update")
+	})
+	c.Borrow(runC10, "C10-R1", "C19-R2", func(k string) bool {
+		return strings.Contains(k, "SetVersion") || strings.Contains(k, "putManagerVersion") || strings.Contains(k, "putVersion")
+	})
 	up := c.P.Func("walletdb/migration", "", "upgrade")
 	vta := c.P.Func("walletdb/migration", "", "VersionsToApply")
 	glv := c.P.Func("walletdb/migration", "", "GetLatestVersion")
